@@ -28,7 +28,8 @@ def real(argv):
     def parse(self, args=None, namespace=None):
         ns = orig_parse(self, args, namespace); seen['ns'] = dict(vars(ns)); return ns
     def set_args(self, namespace, dots=False):
-        seen['set_args'] = ({k: v for k, v in vars(namespace).items()}, dots); raise Stop()
+        # a namespace, or (a rewritten main might hand over) a plain mapping of dotted names
+        seen['set_args'] = (dict(vars(namespace)) if hasattr(namespace, '__dict__') else dict(namespace), dots); raise Stop()
     def set_file(self, filename, base_for_paths=False):
         seen['set_file'] = filename
     argparse.ArgumentParser.parse_args = parse; confuse.Configuration.set_args = set_args; confuse.Configuration.set_file = set_file
@@ -41,7 +42,8 @@ def real(argv):
         argparse.ArgumentParser.parse_args = orig_parse; confuse.Configuration.set_args = orig_set; confuse.Configuration.set_file = orig_setfile
     if 'set_args' not in seen: return dict(odd='main returned without handing the namespace to confuse', seen=seen)
     ns, dots = seen['set_args']
-    return dict(files=ns.get('files'), settings=ns.get('settings'), dots=dots,
+    pns = seen.get('ns', {})     # files/settings are read from the parser's own namespace: a hand-built overlay need not carry them
+    return dict(files=pns.get('files', ns.get('files')), settings=pns.get('settings', ns.get('settings')), dots=dots,
                 cli={k: v for k, v in ns.items() if k not in ('files', 'settings') and v is not None})
 
 
